@@ -48,7 +48,7 @@ type Work struct {
 	Cut     int    `json:"cut,omitempty"`      // >0: the source text handed to the interpreter ends after this many bytes (a program that arrives truncated)
 }
 
-const nSites = 129
+const nSites = 131
 const nWraps = 7
 
 func siteSrc(k int, id string) string {
@@ -323,6 +323,11 @@ func siteSrc(k int, id string) string {
 	// a callback the host keeps and calls after the run has returned and its context was released
 	case 127:
 		return "hlater(func() { lx" + id + " = 1 })\nlv" + id + " = 0\nhlater(func() { lv" + id + "++ })\nh(" + id + ")"
+	// a pointer that points at itself, used wherever the interpreter unwraps pointers to get at a bool or a number
+	case 128:
+		return "sa" + id + " = 1\nsp" + id + " = &sa" + id + "\n*sp" + id + " = sp" + id + "\ntry { if sp" + id + " { } } catch { }\ntry { sb" + id + " = !sp" + id + " } catch { }\ntry { sc" + id + " = sp" + id + " && true } catch { }\ntry { sd" + id + " = sp" + id + " ? 1 : 2 } catch { }\ntry { for sp" + id + " { break } } catch { }\nh(" + id + ")"
+	case 129:
+		return "sa" + id + " = 1\nsp" + id + " = &sa" + id + "\n*sp" + id + " = sp" + id + "\ntry { se" + id + " = [1, 2, 3][sp" + id + "] } catch { }\ntry { sf" + id + " = sp" + id + " + 1 } catch { }\ntry { sg" + id + " = make([]int64, sp" + id + ") } catch { }\ntry { sh" + id + " = \"ab\"[sp" + id + ":] } catch { }\ntry { si" + id + " = 1.5 * sp" + id + " } catch { }\ntry { sj" + id + " = sp" + id + " < 2 } catch { }\ntry { sk" + id + " = -sp" + id + " } catch { }\nh(" + id + ")"
 	default:
 		return "x" + id + " = hid(1) & hid(\"z\")\ny" + id + " = hid(1.5) | hid(nil)\nz" + id + " = hid({}) ^ 1\nw" + id + " = hid([1, 2]) + hid({\"a\": 1})\nv" + id + " = hid(nil) < hid([1])\nu" + id + " = hid(func() { }) == hid(func() { })"
 	}
